@@ -101,6 +101,16 @@ class Schedules(Suite):
                                     "ev": [[5, G.sym_event("G", k=1)], [9, G.sym_event("G", k=2)],
                                            [12, {"k": "progress", "token": {"s": "stale-token"}, "progress": 0.9}],
                                            [40, {"k": "resp", "id": "$ID", "p": {"ok": True}}]]}))
+        # re-entrancy: the progress callback cancels the call's own token, or writes on the call's own
+        # write stream (oracle only: the model has no callbacks with effects)
+        for tie in ("events", "timers", "io"):
+            for k_act in (0, 1, 2):
+                for act in ("cancel", "send"):
+                    for tk in ("plain", "linked", "duck"):
+                        evs = [[5 + 40 * i, G.sym_event("G", k=i + 1)] for i in range(4)] + [[P + 30, {"k": "resp", "id": "$ID", "p": {"ok": 1}}]]
+                        out.append(G.place({"id": {"s": "abc"}, "method": "tools/call", "params": {"name": "x"}, "D": 2 * P, "tie": tie,
+                                            "progress": True, "hasToken": True, "tokenKind": tk, "cbAction": [act, k_act], "ev": evs,
+                                            "debug": k_act == 1}))
         # progress streams
         rng = ctx.sub_rng("c14-progress", budget)
         n = 6000 if budget == "quick" else 150000
@@ -117,6 +127,12 @@ class Schedules(Suite):
         obs = []
         for c in cases:
             o = H.run_case(c)
+            if c.get("cbAction") and c["cbAction"][0] == "send":
+                c2 = dict(c)
+                c2.pop("cbAction")
+                o2 = H.run_case(c2)
+                o["twin"] = {"outcome": o2["outcome"], "t": o2["t"], "cbs": o2["cbs"], "p": o2.get("p"),
+                             "writes": H.impl_shape(c2, o2)["writes"]}
             if c.get("cbRaises"):
                 c2 = dict(c)
                 c2.pop("cbRaises")
@@ -127,7 +143,7 @@ class Schedules(Suite):
         return obs
 
     def model_line(self, case, o=None):
-        if o is None or o.get("harness_errors"):
+        if o is None or o.get("harness_errors") or case.get("cbAction"):
             return None
         return H.model_line(case, o)
 
@@ -147,6 +163,8 @@ class Schedules(Suite):
             tags.append("progress")
         if case.get("cbRaises"):
             tags.append("cbraise")
+        if case.get("cbAction"):
+            tags.append("cb-" + case["cbAction"][0])
         if case.get("writer"):
             tags.append("w-" + case["writer"])
         if case.get("tokenKind", "plain") != "plain" and (case.get("cancelAt") is not None or case.get("pre") or case.get("hasToken")):
@@ -172,6 +190,12 @@ class Schedules(Suite):
         if o["outcome"] == "timeout" and t != D:
             return ("timeout-early", f"TimeoutError at tick {t}, deadline {D}", {"t": D})
         c = case.get("cancelAt")
+        act = case.get("cbAction")
+        if act and act[0] == "cancel" and len(o.get("cb_ticks") or []) > act[1]:
+            # the token fired inside the act[1]-th callback: the very next check of the loop sees it
+            c = o["cb_ticks"][act[1]]
+            if o["outcome"] != "cancelled" or t != c:
+                return ("callback-cancels-own-token", f"the progress callback cancelled the call's token at tick {c}; the call ended {o['outcome']} at {t}", {"outcome": "cancelled", "t": c})
         cancels = [w for w in o["writes"] if isinstance(w, dict) and w.get("method") == "notifications/cancelled"]
         if case.get("pre"):
             reqs = [w for w in o["writes"] if isinstance(w, dict) and "id" in w and w.get("method")]
@@ -226,6 +250,8 @@ class Schedules(Suite):
         if "twin" in o:
             tw = o["twin"]
             me = {"outcome": o["outcome"], "t": o["t"], "cbs": o["cbs"], "p": o.get("p"), "writes": H.impl_shape(case, o)["writes"]}
+            if act and act[0] == "send":
+                me["writes"] = [w for w in me["writes"] if w != "other"]  # the callback's own write
             if canon(tw) != canon(me):
                 return ("callback-failure-disturbs", f"with a raising callback the call gave {me}, without {tw}", tw)
         return None
